@@ -1,0 +1,276 @@
+//go:build verif
+
+package bttest
+
+// Contracts of the row-filter evaluator and of the scrub helpers (area "filters").
+// Checked by /verif/govc. Comments only.
+
+// ---------------------------------------------------------------------------------------------
+// scrubFam / scrubRow (C01, C14, C16; used by C05 through chunkBuilder.add)
+// ---------------------------------------------------------------------------------------------
+
+//@ spec colsNonEmpty(cs []*btpb.Column) bool = forall j :: 0 <= j < len(cs) ==> len(cs[j].Cells) > 0
+//@ spec colsSorted(cs []*btpb.Column) bool = forall a, b :: 0 <= a < b < len(cs) ==> !bytesLess(cs[b].Qualifier, cs[a].Qualifier)
+
+//@ func scrubFam
+//@   property C01 C05 C14 C16
+//@   requires famOK(f)
+//@   modifies f.Columns, elems(f.Columns)
+//@   ensures result0 == f
+//@   ensures famOK(f)
+//@   ensures colsNonEmpty(f.Columns)
+//@   ensures colsSorted(f.Columns)
+//@   ensures obj(f.Columns) == old(obj(f.Columns))
+//@   ensures result1 == (len(f.Columns) != old(len(f.Columns)))
+//@   ensures result1 == (exists j :: 0 <= j < old(len(f.Columns)) && len(old(f.Columns[j]).Cells) == 0)
+//@   ensures forall j :: 0 <= j < len(f.Columns) ==> exists k :: 0 <= k < old(len(f.Columns)) && f.Columns[j] == old(f.Columns[k])
+//@   ensures forall k :: 0 <= k < old(len(f.Columns)) && len(old(f.Columns[k]).Cells) > 0 ==> exists j :: 0 <= j < len(f.Columns) && f.Columns[j] == old(f.Columns[k])
+//@   loop 1 invariant 0 <= wIdx <= idx1 + 1
+//@   loop 1 invariant f.Columns == old(f.Columns)
+//@   loop 1 invariant cap(f.Columns) == 0 ==> sameheap("T:*bigtablepb.Column")
+//@   loop 1 invariant forall k :: idx1 < k < len(f.Columns) ==> f.Columns[k] == old(f.Columns[k])
+//@   loop 1 invariant forall j :: 0 <= j < wIdx ==> colOK(f.Columns[j]) && len(f.Columns[j].Cells) > 0
+//@   loop 1 invariant forall j :: 0 <= j < wIdx ==> exists k :: 0 <= k <= idx1 && f.Columns[j] == old(f.Columns[k])
+//@   loop 1 invariant forall k :: 0 <= k <= idx1 && len(old(f.Columns[k]).Cells) > 0 ==> exists j :: 0 <= j < wIdx && f.Columns[j] == old(f.Columns[k])
+//@   loop 1 invariant (wIdx == idx1 + 1) <==> (forall k :: 0 <= k <= idx1 ==> len(old(f.Columns[k]).Cells) > 0)
+
+// Separation of the families of a row: distinct family objects whose column arrays do not share a backing
+// array (rows are trees: they come from proto.Unmarshal / copyRow / getOrCreate*). Without it scrubbing one
+// family could re-arrange the columns of another one.
+//@ spec famSep(fs []*btpb.Family) bool = forall i, j :: 0 <= i < j < len(fs) ==> fs[i] != fs[j] && (obj(fs[i].Columns) != obj(fs[j].Columns) || (len(fs[i].Columns) == 0 && len(fs[j].Columns) == 0))
+// the family name is one of the table's column families (a nil map has none; govc's contract-level m[k] does not
+// model the nil map, hence the explicit test)
+//@ spec famKnown(cols map[string]*btapb.ColumnFamily, name string) bool = cols != nil && cols[name] != nil
+// a family that scrubRow has to change or drop (famClean is its negation, written out)
+//@ spec famClean(f *btpb.Family, cols map[string]*btapb.ColumnFamily) bool = famKnown(cols, f.Name) && len(f.Columns) > 0 && (forall j :: 0 <= j < len(f.Columns) ==> len(f.Columns[j].Cells) > 0)
+//@ spec famDirty(f *btpb.Family, cols map[string]*btapb.ColumnFamily) bool = !famKnown(cols, f.Name) || len(f.Columns) == 0 || (exists j :: 0 <= j < len(f.Columns) && len(f.Columns[j].Cells) == 0)
+
+// a family that must survive scrubbing: known to the table and holding at least one cell
+//@ spec famKeeps(f *btpb.Family, cols map[string]*btapb.ColumnFamily) bool = famKnown(cols, f.Name) && (exists j :: 0 <= j < len(f.Columns) && len(f.Columns[j].Cells) > 0)
+
+//@ func scrubRow
+//@   property C01 C05 C14 C16
+//@   requires rowOK(r)
+//@   requires famSep(r.Families)
+//@   modifies r.Families, elems(r.Families), heap("F:bigtablepb.Family.Columns"), heap("T:*bigtablepb.Column")
+//@   ensures result0 == r
+//@   ensures rowOK(r)
+//@   ensures forall i :: 0 <= i < len(r.Families) ==> len(r.Families[i].Columns) > 0
+//@   ensures forall i :: 0 <= i < len(r.Families) ==> colsNonEmpty(r.Families[i].Columns)
+//@   ensures forall i :: 0 <= i < len(r.Families) ==> colsSorted(r.Families[i].Columns)
+//@   ensures forall i :: 0 <= i < len(r.Families) ==> famKnown(cols, r.Families[i].Name)
+//@   ensures forall i :: 0 <= i < len(r.Families) ==> exists k :: 0 <= k < old(len(r.Families)) && r.Families[i] == old(r.Families[k])
+//@   ensures result1 == (exists k :: 0 <= k < old(len(r.Families)) && old(famDirty(r.Families[k], cols)))
+//@   ensures forall k :: 0 <= k < old(len(r.Families)) && old(famKeeps(r.Families[k], cols)) ==> exists i :: 0 <= i < len(r.Families) && r.Families[i] == old(r.Families[k])
+//@   ensures result1 || len(r.Families) == old(len(r.Families))
+//@   loop 1 invariant 0 <= wIdx <= idx1 + 1
+//@   loop 1 invariant r.Families == old(r.Families)
+//@   loop 1 invariant cap(r.Families) == 0 ==> sameheap("T:*bigtablepb.Family")
+//@   loop 1 invariant forall k :: idx1 < k < len(r.Families) ==> r.Families[k] == old(r.Families[k])
+//@   loop 1 invariant forall k :: idx1 < k < len(r.Families) ==> r.Families[k].Columns == old(r.Families[k].Columns)
+//@   loop 1 invariant forall k, j :: idx1 < k < len(r.Families) && 0 <= j < len(r.Families[k].Columns) ==> r.Families[k].Columns[j] == old(r.Families[k].Columns[j])
+//@   loop 1 invariant forall i :: 0 <= i < wIdx ==> famOK(r.Families[i]) && len(r.Families[i].Columns) > 0
+//@   loop 1 invariant forall i :: 0 <= i < wIdx ==> colsNonEmpty(r.Families[i].Columns)
+//@   loop 1 invariant forall i :: 0 <= i < wIdx ==> colsSorted(r.Families[i].Columns)
+//@   loop 1 invariant forall i :: 0 <= i < wIdx ==> famKnown(cols, r.Families[i].Name)
+//@   loop 1 invariant forall i :: 0 <= i < wIdx ==> exists k :: 0 <= k <= idx1 && r.Families[i] == old(r.Families[k])
+//@   loop 1 invariant forall k :: 0 <= k <= idx1 && old(famKeeps(r.Families[k], cols)) ==> exists i :: 0 <= i < wIdx && r.Families[i] == old(r.Families[k])
+//@   loop 1 invariant forall i, k :: 0 <= i < wIdx && idx1 < k < len(r.Families) ==> r.Families[i] != r.Families[k] && obj(r.Families[i].Columns) != obj(r.Families[k].Columns)
+//@   loop 1 invariant forall s []*btpb.Family :: !fresh(s) && obj(s) != obj(r.Families) && 0 < len(s) ==> s[0] == old(s[0])
+//@   loop 1 invariant (forall k :: 0 <= k <= idx1 ==> old(famClean(r.Families[k], cols))) ==> wIdx == idx1 + 1
+//@   loop 1 invariant (forall k :: 0 <= k <= idx1 ==> old(famClean(r.Families[k], cols))) ==> !didChange
+//@   loop 1 invariant forall k :: 0 <= k <= idx1 && old(famDirty(r.Families[k], cols)) ==> (didChange || wIdx != idx1 + 1)
+
+// ---------------------------------------------------------------------------------------------
+// Regular expressions (C05). binaryregexp is opaque (see /verif/contracts/trusted/area_filters.spec):
+// ufb_reValid(src), ufs_reSrc(re), ufb_reMatch(src, subject).
+// ---------------------------------------------------------------------------------------------
+
+//@ spec asciiOnly(b []byte) bool = forall i :: 0 <= i < len(b) ==> b[i] <= 127
+//@ spec asciiOnlyS(s string) bool = forall i :: 0 <= i < len(s) ==> s[i] <= 127
+// the anchored pattern text the emulator compiles for an all-ASCII pattern ("match entire target")
+//@ spec reAnchored(pat string) string = "^(?:" + pat + ")$"
+
+//@ func escapeUTF
+//@   property C05
+//@   ensures asciiOnly(in) ==> result == in
+//@   ensures asciiOnly(result)
+//@   ensures len(result) >= len(in)
+//@   loop 1 invariant toEsc >= 0 && toEsc <= idx1 + 1
+//@   loop 1 invariant (toEsc == 0) == (forall i :: 0 <= i <= idx1 ==> in[i] <= 127)
+//@   loop 2 invariant asciiOnly(out)
+//@   loop 2 invariant len(out) >= idx2 + 1
+
+//@ func newRegexp
+//@   property C05
+//@   ensures result1 == nil ==> result0 != nil
+//@   ensures result1 != nil ==> result0 == nil
+//@   ensures asciiOnly(pat) ==> ((result1 == nil) == ufb_reValid(reAnchored(str(pat))))
+//@   ensures asciiOnly(pat) && result1 == nil ==> ufs_reSrc(result0) == reAnchored(str(pat))
+
+// ---------------------------------------------------------------------------------------------
+// includeCell: per-cell predicates (C05)
+// ---------------------------------------------------------------------------------------------
+
+// column range: family equal, lower end open/closed/unset (unset = from the empty qualifier, i.e. unbounded),
+// upper end closed/open/unset (unbounded), over the bytewise order
+//@ spec crStartOK(cr *btpb.ColumnRange, col []byte) bool = typeis(cr.StartQualifier, *btpb.ColumnRange_StartQualifierOpen) ? bytesLess(as(cr.StartQualifier, *btpb.ColumnRange_StartQualifierOpen).StartQualifierOpen, col) : (typeis(cr.StartQualifier, *btpb.ColumnRange_StartQualifierClosed) ? !bytesLess(col, as(cr.StartQualifier, *btpb.ColumnRange_StartQualifierClosed).StartQualifierClosed) : true)
+//@ spec crEndOK(cr *btpb.ColumnRange, col []byte) bool = typeis(cr.EndQualifier, *btpb.ColumnRange_EndQualifierClosed) ? !bytesLess(as(cr.EndQualifier, *btpb.ColumnRange_EndQualifierClosed).EndQualifierClosed, col) : (typeis(cr.EndQualifier, *btpb.ColumnRange_EndQualifierOpen) ? bytesLess(col, as(cr.EndQualifier, *btpb.ColumnRange_EndQualifierOpen).EndQualifierOpen) : true)
+//@ spec colRangeIn(cr *btpb.ColumnRange, fam string, col []byte) bool = fam == cr.FamilyName && crStartOK(cr, col) && crEndOK(cr, col)
+
+// value range: same shape over the cell value
+//@ spec vrStartOK(vr *btpb.ValueRange, v []byte) bool = typeis(vr.StartValue, *btpb.ValueRange_StartValueOpen) ? bytesLess(as(vr.StartValue, *btpb.ValueRange_StartValueOpen).StartValueOpen, v) : (typeis(vr.StartValue, *btpb.ValueRange_StartValueClosed) ? !bytesLess(v, as(vr.StartValue, *btpb.ValueRange_StartValueClosed).StartValueClosed) : true)
+//@ spec vrEndOK(vr *btpb.ValueRange, v []byte) bool = typeis(vr.EndValue, *btpb.ValueRange_EndValueClosed) ? !bytesLess(as(vr.EndValue, *btpb.ValueRange_EndValueClosed).EndValueClosed, v) : (typeis(vr.EndValue, *btpb.ValueRange_EndValueOpen) ? bytesLess(v, as(vr.EndValue, *btpb.ValueRange_EndValueOpen).EndValueOpen) : true)
+//@ spec valRangeIn(vr *btpb.ValueRange, v []byte) bool = vrStartOK(vr, v) && vrEndOK(vr, v)
+
+// timestamp range: start inclusive, end exclusive, end 0 = unbounded; bounds must be whole milliseconds
+//@ spec tsRangeValid(tr *btpb.TimestampRange) bool = tr.StartTimestampMicros % 1000 == 0 && tr.EndTimestampMicros % 1000 == 0
+//@ spec tsRangeIn(tr *btpb.TimestampRange, ts int64) bool = tr.StartTimestampMicros <= ts && (tr.EndTimestampMicros == 0 || ts < tr.EndTimestampMicros)
+
+// the filter kinds whose per-cell verdict can be an error
+//@ spec isRegexKind(f *btpb.RowFilter) bool = typeis(f.Filter, *btpb.RowFilter_FamilyNameRegexFilter) || typeis(f.Filter, *btpb.RowFilter_ColumnQualifierRegexFilter) || typeis(f.Filter, *btpb.RowFilter_ValueRegexFilter)
+// the filter kinds that select cells (every other kind includes every cell)
+//@ spec isCellPredicate(f *btpb.RowFilter) bool = isRegexKind(f) || typeis(f.Filter, *btpb.RowFilter_ColumnRangeFilter) || typeis(f.Filter, *btpb.RowFilter_TimestampRangeFilter) || typeis(f.Filter, *btpb.RowFilter_ValueRangeFilter)
+
+//@ func includeCell
+//@   property C05
+//@   requires cell != nil
+//@   ensures result1 != nil ==> !result0 && uf_grpcCode(result1) == codes.InvalidArgument
+//@   ensures f == nil ==> result0 && result1 == nil
+//@   ensures f != nil && !isCellPredicate(f) ==> result0 && result1 == nil
+//@   ensures f != nil && typeis(f.Filter, *btpb.RowFilter_ColumnRangeFilter) ==> result1 == nil && result0 == colRangeIn(as(f.Filter, *btpb.RowFilter_ColumnRangeFilter).ColumnRangeFilter, fam, col)
+//@   ensures f != nil && typeis(f.Filter, *btpb.RowFilter_ValueRangeFilter) ==> result1 == nil && result0 == valRangeIn(as(f.Filter, *btpb.RowFilter_ValueRangeFilter).ValueRangeFilter, cell.Value)
+//@   ensures f != nil && typeis(f.Filter, *btpb.RowFilter_TimestampRangeFilter) ==> (result1 == nil) == tsRangeValid(as(f.Filter, *btpb.RowFilter_TimestampRangeFilter).TimestampRangeFilter)
+//@   ensures f != nil && typeis(f.Filter, *btpb.RowFilter_TimestampRangeFilter) && result1 == nil ==> result0 == tsRangeIn(as(f.Filter, *btpb.RowFilter_TimestampRangeFilter).TimestampRangeFilter, cell.TimestampMicros)
+//@   ensures f != nil && typeis(f.Filter, *btpb.RowFilter_FamilyNameRegexFilter) && asciiOnlyS(as(f.Filter, *btpb.RowFilter_FamilyNameRegexFilter).FamilyNameRegexFilter) ==> (result1 == nil) == ufb_reValid(reAnchored(as(f.Filter, *btpb.RowFilter_FamilyNameRegexFilter).FamilyNameRegexFilter))
+//@   ensures f != nil && typeis(f.Filter, *btpb.RowFilter_FamilyNameRegexFilter) && asciiOnlyS(as(f.Filter, *btpb.RowFilter_FamilyNameRegexFilter).FamilyNameRegexFilter) && result1 == nil ==> result0 == ufb_reMatch(reAnchored(as(f.Filter, *btpb.RowFilter_FamilyNameRegexFilter).FamilyNameRegexFilter), fam)
+//@   ensures f != nil && typeis(f.Filter, *btpb.RowFilter_ColumnQualifierRegexFilter) && asciiOnly(as(f.Filter, *btpb.RowFilter_ColumnQualifierRegexFilter).ColumnQualifierRegexFilter) ==> (result1 == nil) == ufb_reValid(reAnchored(str(as(f.Filter, *btpb.RowFilter_ColumnQualifierRegexFilter).ColumnQualifierRegexFilter)))
+//@   ensures f != nil && typeis(f.Filter, *btpb.RowFilter_ColumnQualifierRegexFilter) && asciiOnly(as(f.Filter, *btpb.RowFilter_ColumnQualifierRegexFilter).ColumnQualifierRegexFilter) && result1 == nil ==> result0 == ufb_reMatch(reAnchored(str(as(f.Filter, *btpb.RowFilter_ColumnQualifierRegexFilter).ColumnQualifierRegexFilter)), str(col))
+//@   ensures f != nil && typeis(f.Filter, *btpb.RowFilter_ValueRegexFilter) && asciiOnly(as(f.Filter, *btpb.RowFilter_ValueRegexFilter).ValueRegexFilter) ==> (result1 == nil) == ufb_reValid(reAnchored(str(as(f.Filter, *btpb.RowFilter_ValueRegexFilter).ValueRegexFilter)))
+//@   ensures f != nil && typeis(f.Filter, *btpb.RowFilter_ValueRegexFilter) && asciiOnly(as(f.Filter, *btpb.RowFilter_ValueRegexFilter).ValueRegexFilter) && result1 == nil ==> result0 == ufb_reMatch(reAnchored(str(as(f.Filter, *btpb.RowFilter_ValueRegexFilter).ValueRegexFilter)), str(cell.Value))
+
+// ---------------------------------------------------------------------------------------------
+// filterCells (C05): the result is the subsequence of the included cells, each mapped by modifyCell
+// ---------------------------------------------------------------------------------------------
+
+// the per-cell verdict of the non-regex kinds as a function of the cell (regex kinds: see includeCell)
+//@ spec cellIn(f *btpb.RowFilter, fam string, col []byte, c *btpb.Cell) bool = f == nil || !isCellPredicate(f) || (typeis(f.Filter, *btpb.RowFilter_ColumnRangeFilter) && colRangeIn(as(f.Filter, *btpb.RowFilter_ColumnRangeFilter).ColumnRangeFilter, fam, col)) || (typeis(f.Filter, *btpb.RowFilter_ValueRangeFilter) && valRangeIn(as(f.Filter, *btpb.RowFilter_ValueRangeFilter).ValueRangeFilter, c.Value)) || (typeis(f.Filter, *btpb.RowFilter_TimestampRangeFilter) && tsRangeIn(as(f.Filter, *btpb.RowFilter_TimestampRangeFilter).TimestampRangeFilter, c.TimestampMicros))
+// kinds for which cellIn is the whole story (no error possible in includeCell)
+//@ spec plainKind(f *btpb.RowFilter) bool = f == nil || (!isRegexKind(f) && !typeis(f.Filter, *btpb.RowFilter_TimestampRangeFilter))
+
+//@ func filterCells
+//@   property C05
+//@   requires cellsOK(cs)
+//@   ensures result1 != nil ==> len(result0) == 0
+//@   ensures result1 == nil ==> cellsOK(result0)
+//@   ensures len(result0) <= len(cs)
+//@   ensures cap(result0) == 0 || fresh(result0)
+//@   ensures result1 == nil ==> forall k :: 0 <= k < len(result0) ==> exists i :: k <= i < len(cs) && (result0[k] == cs[i] || fresh(result0[k])) && (isRegexKind(f) || cellIn(f, fam, col, cs[i]))
+//@   ensures result1 == nil && !isRegexKind(f) && (forall i :: 0 <= i < len(cs) ==> cellIn(f, fam, col, cs[i])) ==> len(result0) == len(cs)
+//@   ensures result1 == nil && !isRegexKind(f) && (forall i :: 0 <= i < len(cs) ==> cellIn(f, fam, col, cs[i])) ==> forall i :: 0 <= i < len(cs) ==> result0[i] == cs[i] || fresh(result0[i])
+//@   ensures result1 == nil && !isRegexKind(f) && (forall i :: 0 <= i < len(cs) ==> !cellIn(f, fam, col, cs[i])) ==> len(result0) == 0
+//@   ensures f != nil && typeis(f.Filter, *btpb.RowFilter_TimestampRangeFilter) && len(cs) > 0 && !tsRangeValid(as(f.Filter, *btpb.RowFilter_TimestampRangeFilter).TimestampRangeFilter) ==> result1 != nil && uf_grpcCode(result1) == codes.InvalidArgument
+//@   loop 1 invariant frameOld(heap("T:*bigtablepb.Cell"))
+//@   loop 1 invariant cap(ret) == 0 || fresh(ret)
+//@   loop 1 invariant cellsOK(ret) && len(ret) <= idx1 + 1
+//@   loop 1 invariant forall k :: 0 <= k < len(ret) ==> exists i :: k <= i <= idx1 && (ret[k] == cs[i] || fresh(ret[k])) && (isRegexKind(f) || cellIn(f, fam, col, cs[i]))
+//@   loop 1 invariant !isRegexKind(f) && (forall i :: 0 <= i <= idx1 ==> cellIn(f, fam, col, cs[i])) ==> len(ret) == idx1 + 1
+//@   loop 1 invariant !isRegexKind(f) && (forall i :: 0 <= i <= idx1 ==> cellIn(f, fam, col, cs[i])) ==> forall i :: 0 <= i <= idx1 ==> ret[i] == cs[i] || fresh(ret[i])
+//@   loop 1 invariant !isRegexKind(f) && (forall i :: 0 <= i <= idx1 ==> !cellIn(f, fam, col, cs[i])) ==> len(ret) == 0
+//@   loop 1 invariant f != nil && typeis(f.Filter, *btpb.RowFilter_TimestampRangeFilter) && idx1 >= 0 ==> tsRangeValid(as(f.Filter, *btpb.RowFilter_TimestampRangeFilter).TimestampRangeFilter)
+
+// ---------------------------------------------------------------------------------------------
+// filterRow (C05)
+// ---------------------------------------------------------------------------------------------
+
+// every column of the row satisfies ...: helper shapes
+//@ spec rowAllEmpty(r *btpb.Row) bool = forall i, j :: 0 <= i < len(r.Families) && 0 <= j < len(r.Families[i].Columns) ==> len(r.Families[i].Columns[j].Cells) == 0
+// the error of an invalid filter argument
+//@ spec invalidArg(ok bool, err error) bool = !ok && err != nil && uf_grpcCode(err) == codes.InvalidArgument
+
+//@ func filterRow
+//@   property C05
+//@   requires rowOK(r)
+//@   modifies r.Families, heap("F:bigtablepb.Column.Cells")
+//@   ensures rowOK(r)
+//@   ensures result1 != nil ==> !result0
+//@   ensures f == nil ==> result0 && result1 == nil
+// --- validation: rejected with InvalidArgument, never ignored, never fatal
+//@   ensures f != nil && typeis(f.Filter, *btpb.RowFilter_BlockAllFilter) ==> !result0 && ((result1 == nil) == as(f.Filter, *btpb.RowFilter_BlockAllFilter).BlockAllFilter)
+//@   ensures f != nil && typeis(f.Filter, *btpb.RowFilter_PassAllFilter) ==> ((result1 == nil) == as(f.Filter, *btpb.RowFilter_PassAllFilter).PassAllFilter) && (result1 == nil ==> result0)
+//@   ensures f != nil && (typeis(f.Filter, *btpb.RowFilter_BlockAllFilter) || typeis(f.Filter, *btpb.RowFilter_PassAllFilter)) && result1 != nil ==> uf_grpcCode(result1) == codes.InvalidArgument
+//@   ensures f != nil && typeis(f.Filter, *btpb.RowFilter_Chain_) && len(as(f.Filter, *btpb.RowFilter_Chain_).Chain.Filters) < 2 ==> invalidArg(result0, result1)
+//@   ensures f != nil && typeis(f.Filter, *btpb.RowFilter_Interleave_) && len(as(f.Filter, *btpb.RowFilter_Interleave_).Interleave.Filters) < 2 ==> invalidArg(result0, result1)
+//@   ensures f != nil && typeis(f.Filter, *btpb.RowFilter_CellsPerColumnLimitFilter) ==> (as(f.Filter, *btpb.RowFilter_CellsPerColumnLimitFilter).CellsPerColumnLimitFilter < 0 ? invalidArg(result0, result1) : (result0 && result1 == nil))
+//@   ensures f != nil && typeis(f.Filter, *btpb.RowFilter_CellsPerRowLimitFilter) ==> (as(f.Filter, *btpb.RowFilter_CellsPerRowLimitFilter).CellsPerRowLimitFilter < 0 ? invalidArg(result0, result1) : (result0 && result1 == nil))
+//@   ensures f != nil && typeis(f.Filter, *btpb.RowFilter_CellsPerRowOffsetFilter) ==> (as(f.Filter, *btpb.RowFilter_CellsPerRowOffsetFilter).CellsPerRowOffsetFilter < 0 ? invalidArg(result0, result1) : (result0 && result1 == nil))
+// sample probability p must lie in (0,1); the contract language has no real literals: over the reals 0 < p < 1 <==> p*p < p
+//@   ensures f != nil && typeis(f.Filter, *btpb.RowFilter_RowSampleFilter) && !(as(f.Filter, *btpb.RowFilter_RowSampleFilter).RowSampleFilter * as(f.Filter, *btpb.RowFilter_RowSampleFilter).RowSampleFilter < as(f.Filter, *btpb.RowFilter_RowSampleFilter).RowSampleFilter) ==> invalidArg(result0, result1)
+//@   ensures f != nil && typeis(f.Filter, *btpb.RowFilter_RowSampleFilter) && as(f.Filter, *btpb.RowFilter_RowSampleFilter).RowSampleFilter * as(f.Filter, *btpb.RowFilter_RowSampleFilter).RowSampleFilter < as(f.Filter, *btpb.RowFilter_RowSampleFilter).RowSampleFilter ==> result1 == nil
+//@   ensures f != nil && typeis(f.Filter, *btpb.RowFilter_TimestampRangeFilter) && !tsRangeValid(as(f.Filter, *btpb.RowFilter_TimestampRangeFilter).TimestampRangeFilter) ==> invalidArg(result0, result1)
+//@   ensures f != nil && typeis(f.Filter, *btpb.RowFilter_RowKeyRegexFilter) && asciiOnly(as(f.Filter, *btpb.RowFilter_RowKeyRegexFilter).RowKeyRegexFilter) && !ufb_reValid(reAnchored(str(as(f.Filter, *btpb.RowFilter_RowKeyRegexFilter).RowKeyRegexFilter))) ==> invalidArg(result0, result1)
+//@   ensures f != nil && typeis(f.Filter, *btpb.RowFilter_ValueRegexFilter) && asciiOnly(as(f.Filter, *btpb.RowFilter_ValueRegexFilter).ValueRegexFilter) && !ufb_reValid(reAnchored(str(as(f.Filter, *btpb.RowFilter_ValueRegexFilter).ValueRegexFilter))) ==> invalidArg(result0, result1)
+// --- valid leaf filters never fail
+//@   ensures f != nil && (typeis(f.Filter, *btpb.RowFilter_ColumnRangeFilter) || typeis(f.Filter, *btpb.RowFilter_ValueRangeFilter) || typeis(f.Filter, *btpb.RowFilter_StripValueTransformer)) ==> result1 == nil
+//@   ensures f != nil && typeis(f.Filter, *btpb.RowFilter_TimestampRangeFilter) && tsRangeValid(as(f.Filter, *btpb.RowFilter_TimestampRangeFilter).TimestampRangeFilter) ==> result1 == nil
+// --- semantics
+// cells-per-column limit n >= 0: every column keeps its first min(n, len) cells
+//@   ensures f != nil && typeis(f.Filter, *btpb.RowFilter_CellsPerColumnLimitFilter) && result1 == nil ==> forall i, j :: 0 <= i < len(r.Families) && 0 <= j < len(r.Families[i].Columns) ==> r.Families[i].Columns[j].Cells == old(r.Families[i].Columns[j].Cells)[0:min(as(f.Filter, *btpb.RowFilter_CellsPerColumnLimitFilter).CellsPerColumnLimitFilter, old(len(r.Families[i].Columns[j].Cells)))]
+// cells-per-row limit / offset: every column keeps a prefix / a suffix of its cells
+//@   ensures f != nil && typeis(f.Filter, *btpb.RowFilter_CellsPerRowLimitFilter) && result1 == nil ==> forall i, j :: 0 <= i < len(r.Families) && 0 <= j < len(r.Families[i].Columns) ==> len(r.Families[i].Columns[j].Cells) <= old(len(r.Families[i].Columns[j].Cells)) && r.Families[i].Columns[j].Cells == old(r.Families[i].Columns[j].Cells)[0:len(r.Families[i].Columns[j].Cells)]
+//@   ensures f != nil && typeis(f.Filter, *btpb.RowFilter_CellsPerRowOffsetFilter) && result1 == nil ==> forall i, j :: 0 <= i < len(r.Families) && 0 <= j < len(r.Families[i].Columns) ==> len(r.Families[i].Columns[j].Cells) <= old(len(r.Families[i].Columns[j].Cells))
+// per-cell kinds: no match <==> no cell survives (the converse direction needs pairwise distinct columns)
+//@   ensures f != nil && isCellPredicate(f) && result1 == nil && !result0 ==> rowAllEmpty(r)
+// row-key regex (ASCII patterns): match of the whole key, row untouched otherwise per-cell default
+//@   ensures f != nil && typeis(f.Filter, *btpb.RowFilter_RowKeyRegexFilter) && asciiOnly(as(f.Filter, *btpb.RowFilter_RowKeyRegexFilter).RowKeyRegexFilter) && result1 == nil && result0 ==> ufb_reMatch(reAnchored(str(as(f.Filter, *btpb.RowFilter_RowKeyRegexFilter).RowKeyRegexFilter)), str(r.Key))
+// row structure (families, columns) is only rebuilt by Interleave (directly or nested)
+//@   ensures f != nil && !typeis(f.Filter, *btpb.RowFilter_Chain_) && !typeis(f.Filter, *btpb.RowFilter_Interleave_) && !typeis(f.Filter, *btpb.RowFilter_Condition_) ==> r.Families == old(r.Families)
+// --- loops
+//@   loop 1 invariant rowOK(r)
+//@   loop 2 invariant rowOK(r)
+//@   loop 2 invariant forall k :: 0 <= k < len(srs) ==> rowOK(srs[k])
+//@   loop 2 invariant fresh(srs) && len(srs) <= idx2 + 1 && cap(srs) == len(as(old(f.Filter), *btpb.RowFilter_Interleave_).Interleave.Filters)
+//@   loop 3 invariant rowOK(r)
+//@   loop 3 invariant forall k :: 0 <= k < len(srs) ==> rowOK(srs[k])
+//@   loop 4 invariant rowOK(r)
+//@   loop 4 invariant forall k :: 0 <= k < len(srs) ==> rowOK(srs[k])
+//@   loop 4 invariant 0 <= idx3 + 1 < len(srs) && sr == srs[idx3 + 1]
+//@   loop 5 invariant rowOK(r)
+//@   loop 5 invariant forall k :: 0 <= k < len(srs) ==> rowOK(srs[k])
+//@   loop 5 invariant 0 <= idx3 + 1 < len(srs) && sr == srs[idx3 + 1]
+//@   loop 5 invariant 0 <= idx4 + 1 < len(sr.Families) && fam == sr.Families[idx4 + 1]
+//@   loop 6 invariant rowOK(r)
+//@   loop 7 invariant rowOK(r)
+//@   loop 7 invariant 0 <= idx6 + 1 < len(r.Families) && fam == r.Families[idx6 + 1]
+//@   loop 8 invariant rowOK(r) && r.Families == old(r.Families)
+//@   loop 9 invariant rowOK(r) && r.Families == old(r.Families)
+//@   loop 9 invariant 0 <= idx8 + 1 < len(r.Families) && fam == r.Families[idx8 + 1]
+//@   loop 10 invariant rowOK(r) && r.Families == old(r.Families) && lim >= 0
+//@   loop 11 invariant rowOK(r) && r.Families == old(r.Families) && lim >= 0
+//@   loop 11 invariant 0 <= idx10 + 1 < len(r.Families) && fam == r.Families[idx10 + 1]
+//@   loop 12 invariant rowOK(r) && r.Families == old(r.Families) && offset >= 0
+//@   loop 13 invariant rowOK(r) && r.Families == old(r.Families) && offset >= 0
+//@   loop 13 invariant 0 <= idx12 + 1 < len(r.Families) && fam == r.Families[idx12 + 1]
+//@   loop 14 invariant rowOK(r) && r.Families == old(r.Families) && cellCount >= 0
+//@   loop 15 invariant rowOK(r) && r.Families == old(r.Families) && cellCount >= 0
+//@   loop 15 invariant 0 <= idx14 + 1 < len(r.Families) && fam == r.Families[idx14 + 1]
+//@   loop 8 invariant frameOld(heap("F:bigtablepb.Row.Families"), heap("T:*bigtablepb.Family"), heap("F:bigtablepb.Family.Columns"), heap("T:*bigtablepb.Column"), heap("T:*bigtablepb.Cell"))
+//@   loop 9 invariant frameOld(heap("F:bigtablepb.Row.Families"), heap("T:*bigtablepb.Family"), heap("F:bigtablepb.Family.Columns"), heap("T:*bigtablepb.Column"), heap("T:*bigtablepb.Cell"))
+//@   loop 10 invariant frameOld(heap("F:bigtablepb.Row.Families"), heap("T:*bigtablepb.Family"), heap("F:bigtablepb.Family.Columns"), heap("T:*bigtablepb.Column"), heap("T:*bigtablepb.Cell"))
+//@   loop 11 invariant frameOld(heap("F:bigtablepb.Row.Families"), heap("T:*bigtablepb.Family"), heap("F:bigtablepb.Family.Columns"), heap("T:*bigtablepb.Column"), heap("T:*bigtablepb.Cell"))
+//@   loop 12 invariant frameOld(heap("F:bigtablepb.Row.Families"), heap("T:*bigtablepb.Family"), heap("F:bigtablepb.Family.Columns"), heap("T:*bigtablepb.Column"), heap("T:*bigtablepb.Cell"))
+//@   loop 13 invariant frameOld(heap("F:bigtablepb.Row.Families"), heap("T:*bigtablepb.Family"), heap("F:bigtablepb.Family.Columns"), heap("T:*bigtablepb.Column"), heap("T:*bigtablepb.Cell"))
+//@   loop 14 invariant frameOld(heap("F:bigtablepb.Row.Families"), heap("T:*bigtablepb.Family"), heap("F:bigtablepb.Family.Columns"), heap("T:*bigtablepb.Column"), heap("T:*bigtablepb.Cell"))
+//@   loop 15 invariant frameOld(heap("F:bigtablepb.Row.Families"), heap("T:*bigtablepb.Family"), heap("F:bigtablepb.Family.Columns"), heap("T:*bigtablepb.Column"), heap("T:*bigtablepb.Cell"))
+//@   loop 8 invariant lim >= 0
+//@   loop 8 invariant forall i, j :: 0 <= i < len(r.Families) && 0 <= j < len(r.Families[i].Columns) ==> r.Families[i].Columns[j].Cells == old(r.Families[i].Columns[j].Cells) || (old(len(r.Families[i].Columns[j].Cells)) > lim && r.Families[i].Columns[j].Cells == old(r.Families[i].Columns[j].Cells)[0:lim])
+//@   loop 8 invariant forall i, j :: 0 <= i < len(r.Families) && 0 <= j < len(r.Families[i].Columns) && i <= idx8 ==> len(r.Families[i].Columns[j].Cells) <= lim
+//@   loop 9 invariant lim >= 0
+//@   loop 9 invariant forall i, j :: 0 <= i < len(r.Families) && 0 <= j < len(r.Families[i].Columns) ==> r.Families[i].Columns[j].Cells == old(r.Families[i].Columns[j].Cells) || (old(len(r.Families[i].Columns[j].Cells)) > lim && r.Families[i].Columns[j].Cells == old(r.Families[i].Columns[j].Cells)[0:lim])
+//@   loop 9 invariant forall i, j :: 0 <= i < len(r.Families) && 0 <= j < len(r.Families[i].Columns) && (i <= idx8 || (i == idx8 + 1 && j <= idx9)) ==> len(r.Families[i].Columns[j].Cells) <= lim
+//@   loop 10 invariant forall i, j :: 0 <= i < len(r.Families) && 0 <= j < len(r.Families[i].Columns) ==> len(r.Families[i].Columns[j].Cells) <= old(len(r.Families[i].Columns[j].Cells)) && r.Families[i].Columns[j].Cells == old(r.Families[i].Columns[j].Cells)[0:len(r.Families[i].Columns[j].Cells)]
+//@   loop 11 invariant forall i, j :: 0 <= i < len(r.Families) && 0 <= j < len(r.Families[i].Columns) ==> len(r.Families[i].Columns[j].Cells) <= old(len(r.Families[i].Columns[j].Cells)) && r.Families[i].Columns[j].Cells == old(r.Families[i].Columns[j].Cells)[0:len(r.Families[i].Columns[j].Cells)]
+//@   loop 12 invariant forall i, j :: 0 <= i < len(r.Families) && 0 <= j < len(r.Families[i].Columns) ==> len(r.Families[i].Columns[j].Cells) <= old(len(r.Families[i].Columns[j].Cells))
+//@   loop 13 invariant forall i, j :: 0 <= i < len(r.Families) && 0 <= j < len(r.Families[i].Columns) ==> len(r.Families[i].Columns[j].Cells) <= old(len(r.Families[i].Columns[j].Cells))
+//@   loop 14 invariant cellCount == 0 ==> forall i, j :: 0 <= i < len(r.Families) && 0 <= j < len(r.Families[i].Columns) && i <= idx14 ==> len(r.Families[i].Columns[j].Cells) == 0
+//@   loop 15 invariant cellCount == 0 ==> forall i, j :: 0 <= i < len(r.Families) && 0 <= j < len(r.Families[i].Columns) && (i <= idx14 || (i == idx14 + 1 && j <= idx15)) ==> len(r.Families[i].Columns[j].Cells) == 0
